@@ -6,7 +6,7 @@ prop, patch = sys.argv[1], os.path.abspath(sys.argv[2])
 props = [prop] + sys.argv[3:]
 tmp = tempfile.mkdtemp(prefix='verif_try_')
 try:
-    subprocess.run(['rsync', '-a', '--exclude', '_build', '--exclude', '.git', '--exclude', 'OUT', '/repo/', tmp + '/'], check=True)
+    subprocess.run(['rsync', '-a', '--exclude', '_build', '--exclude', '.git', '--exclude', 'OUT', os.environ.get('VERIF_SRC_REPO', '/repo').rstrip('/') + '/', tmp + '/'], check=True)
     r = subprocess.run(['git', 'apply', '--whitespace=nowarn', patch], cwd=tmp, capture_output=True, text=True)
     if r.returncode:
         r = subprocess.run(['patch', '-p1', '-s', '-f', '-i', patch], cwd=tmp, capture_output=True, text=True)
